@@ -7,6 +7,11 @@ package diag
 // C37: error positions point at the right lines and columns.
 // nl(s, a, c) is the number of '\n' bytes in s[a:c] (engine built-in, axioms NLAX).
 
+// Ranger.Range is a pure accessor.
+//@ func Ranger.Range
+//@   pure
+//@   functional
+
 //@ func firstLine
 //@   props C37
 //@   pure
